@@ -507,8 +507,8 @@ func (p *TermPool) Eq(a, b *Term) *Term {
 			return p.Ite(b.args[0], p.Eq(a, b.args[1]), p.Eq(a, b.args[2]))
 		}
 		// x + k1 == k2
-		if a.IsConst() && b.op == OpBVAdd && b.args[0].IsConst() {
-			return p.Eq(p.BVConst(a.sort.W, a.val-b.args[0].val), b.args[1])
+		if a.IsConst() && b.op == OpBVAdd && b.args[1].IsConst() {
+			return p.Eq(p.BVConst(a.sort.W, a.val-b.args[1].val), b.args[0])
 		}
 		if a.IsConst() && b.op == OpBVXor && b.args[0].IsConst() {
 			return p.Eq(p.BVConst(a.sort.W, a.val^b.args[0].val), b.args[1])
@@ -655,9 +655,7 @@ func (p *TermPool) bvBin(op Op, a, b *Term) *Term {
 		if a.IsConst() && a.val == 0 {
 			return b
 		}
-		if a.IsConst() && b.op == OpBVAdd && b.args[0].IsConst() {
-			return p.bvBin(OpBVAdd, p.BVConst(w, a.val+b.args[0].val), b.args[1])
-		}
+		return p.addNormal(a, b, w)
 	case OpBVSub:
 		if b.IsConst() {
 			if b.val == 0 {
@@ -668,11 +666,15 @@ func (p *TermPool) bvBin(op Op, a, b *Term) *Term {
 		if a == b {
 			return p.BVConst(w, 0)
 		}
-		// (k + x) - x
+		// (x + y) - y
 		if a.op == OpBVAdd && a.args[1] == b {
 			return a.args[0]
 		}
 		if a.op == OpBVAdd && a.args[0] == b {
+			return a.args[1]
+		}
+		// (x + k) - x
+		if a.op == OpBVAdd && a.args[1].IsConst() && a.args[0] == b {
 			return a.args[1]
 		}
 	case OpBVMul:
@@ -739,6 +741,10 @@ func (p *TermPool) bvBin(op Op, a, b *Term) *Term {
 			if b.val >= uint64(w) {
 				return p.BVConst(w, 0)
 			}
+			if a.op == OpBVAdd {
+				// (x+y)<<k = (x<<k)+(y<<k): keeps sums in one flat, order-independent form
+				return p.bvBin(OpBVAdd, p.bvBin(OpBVShl, a.args[0], b), p.bvBin(OpBVShl, a.args[1], b))
+			}
 			k := int(b.val)
 			// shl of value -> concat(extract(a, w-k-1, 0), 0_k)
 			return p.Concat(p.Extract(a, w-k-1, 0), p.BVConst(k, 0))
@@ -784,6 +790,45 @@ func (p *TermPool) bvBin(op Op, a, b *Term) *Term {
 		}
 	}
 	return p.mk(op, a.sort, []*Term{a, b}, 0, "", 0, 0)
+}
+
+// addNormal builds a sum in AC-normal form: nested additions are flattened, constants combined, addends sorted by
+// term id and re-nested to the right, so that two sums of the same addends in different orders are the same term.
+func (p *TermPool) addNormal(a, b *Term, w int) *Term {
+	var atoms []*Term
+	var k uint64
+	var collect func(t *Term)
+	collect = func(t *Term) {
+		for t.op == OpBVAdd {
+			collect(t.args[0])
+			t = t.args[1]
+		}
+		if t.IsConst() {
+			k += t.val
+			return
+		}
+		atoms = append(atoms, t)
+	}
+	collect(a)
+	collect(b)
+	sort.Slice(atoms, func(i, j int) bool { return atoms[i].id < atoms[j].id })
+	k &= mask(w)
+	// left-nested in id order: a sum extended by later-created addends keeps the earlier sum as a shared subterm
+	var res *Term
+	for _, t := range atoms {
+		if res == nil {
+			res = t
+		} else {
+			res = p.mk(OpBVAdd, BV(w), []*Term{res, t}, 0, "", 0, 0)
+		}
+	}
+	if res == nil {
+		return p.BVConst(w, k)
+	}
+	if k != 0 {
+		res = p.mk(OpBVAdd, BV(w), []*Term{res, p.BVConst(w, k)}, 0, "", 0, 0)
+	}
+	return res
 }
 
 // tryConcatOr recognises hi|lo where hi = concat(X, 0_k) and lo < 2^k.
@@ -904,6 +949,9 @@ func (p *TermPool) Concat(a, b *Term) *Term {
 	if a.IsConst() && a.val == 0 {
 		return p.Zext(b, a.sort.W)
 	}
+	if a.op == OpBVNot && b.op == OpBVNot {
+		return p.BNot(p.Concat(a.args[0], b.args[0]))
+	}
 	// concat(extract(x,h,m+1), extract(x,m,l)) -> extract(x,h,l)
 	if a.op == OpExtract && b.op == OpExtract && a.args[0] == b.args[0] && a.p2 == b.p1+1 {
 		return p.Extract(a.args[0], a.p1, b.p2)
@@ -952,10 +1000,6 @@ func (p *TermPool) Extract(a *Term, hi, lo int) *Term {
 		return p.bvBin(a.op, p.Extract(a.args[0], hi, lo), p.Extract(a.args[1], hi, lo))
 	case OpBVNot:
 		return p.BNot(p.Extract(a.args[0], hi, lo))
-	case OpBVAdd, OpBVSub, OpBVMul:
-		if lo == 0 {
-			return p.bvBin(a.op, p.Extract(a.args[0], hi, 0), p.Extract(a.args[1], hi, 0))
-		}
 	case OpIte:
 		if a.args[1].IsConst() || a.args[2].IsConst() {
 			return p.Ite(a.args[0], p.Extract(a.args[1], hi, lo), p.Extract(a.args[2], hi, lo))
